@@ -128,13 +128,18 @@ class Ctx:
         self.cov["distinct_nontrivial"] = len(self._distinct)
         violations = []
         printed_known = set()
+        seen_sig = set()
         for w in self.witnesses:
+            key = json.dumps(w["signature"], sort_keys=True, default=str) if w["signature"] else w["what"]
             k = self._match_known(w)
             if k is not None:
                 if k["id"] not in printed_known:
                     printed_known.add(k["id"])
                     print(f"KNOWN-FINDING: property={self.prop} {k['what']}")
                 continue
+            if key in seen_sig:
+                continue    # one VIOLATION line per distinct failure signature
+            seen_sig.add(key)
             violations.append(("impl-witness", w))
         if self.broken and not violations:
             violations.append(("broken", self.broken))
